@@ -7,7 +7,8 @@ For each read operation X ∈ {Read, ReadUserTuple, ReadUsersetTuples, ReadStart
   specX (the documented filter of pkg/storage/storage.go)
 and the statements `memX = specX`, `sqlX = specX` for ALL stores and ALL filters (`Full…`).
 
-The unchanged tree violates several of them (finding F4 and its relatives).  The places where the source
+The tree as first seen (snapshot 469a15f) violated several of them (finding F4 and its relatives); commit 5575d87
+repaired F4a/F4b in memory.ReadUsersetTuples, the others (F4c–F4g) are still there.  The places where the source
 deviates are switches (`MemShape`, `SqlShape`) whose current values the extractor reads off the source
 (`Gen.StoreRead`) on every run.  For every `Full…` statement this file has
   * the proof for the repaired shape (`…_fixed`),
@@ -181,8 +182,8 @@ theorem mem_rut_counterexample_conditions (sh : MemShape) (h : sh.rutCondFirst =
   revert this
   cases a <;> cases c <;> cases d <;> cases e <;> cases g <;> decide
 
-theorem mem_rut_asWritten_conditions_with_restriction :
-    memReadUsersetTuples MemShape.asWritten wStore fRutCond ≠ specReadUsersetTuples wStore fRutCond := by decide
+theorem mem_rut_beforeFix_conditions_with_restriction :
+    memReadUsersetTuples MemShape.beforeFix wStore fRutCond ≠ specReadUsersetTuples wStore fRutCond := by decide
 
 /-- **F4b, negation witness**: a restriction listed twice returns every matching tuple twice. -/
 theorem mem_rut_counterexample_duplicates (sh : MemShape) (h : sh.rutBreakOnMatch = false) : ¬ FullMemRUT sh := by
@@ -202,7 +203,7 @@ theorem mem_rut_counterexample_plain (sh : MemShape) (h : sh.rutPlainMatchesWild
   revert this
   cases a <;> cases b <;> cases c <;> cases e <;> cases g <;> decide
 
-theorem mem_rut_asWritten_counterexample : ¬ FullMemRUT MemShape.asWritten :=
+theorem mem_rut_beforeFix_counterexample : ¬ FullMemRUT MemShape.beforeFix :=
   mem_rut_counterexample_conditions _ rfl
 
 /-- the statement for the shape the source has today: every hypothesis whose switch is on the documented side is
@@ -213,6 +214,29 @@ theorem mem_rut_current (s : List TupleRec) (f : UsersetFilter)
       ∀ t ∈ s, f.restrictions.countP (memRestrOk Gen.StoreRead.rutPlainMatchesWildcard t) ≤ 1)
     (hp : Gen.StoreRead.rutPlainMatchesWildcard = false ∨ ∀ x ∈ f.restrictions, x.kind ≠ .plain) :
     memReadUsersetTuples genMemShape s f = specReadUsersetTuples s f := mem_rut_eq_spec genMemShape s f hc hb hp
+
+/-- **Tie (since commit 5575d87)**: in today's memory.ReadUsersetTuples the `Conditions` test stands before every
+append and the restriction loop leaves after the first match.  A regression of either breaks this lemma. -/
+theorem tie_rut_repaired :
+    Gen.StoreRead.rutCondFirst = true ∧ Gen.StoreRead.rutBreakOnMatch = true := by decide
+
+/-- everything the callers can pass: references with a relation or a wildcard (`typesystem` never produces others) -/
+def NoPlainRef (f : UsersetFilter) : Prop := ∀ x ∈ f.restrictions, x.kind ≠ .plain
+
+/-- **F4a/F4b closed — the full statement for today's source**: for ALL stores and ALL filters (any `Conditions`
+list, incl. `""`; any restriction list, incl. duplicates and wildcards) memory.ReadUsersetTuples returns exactly the
+documented selection, each tuple once.  (Before 5575d87 this was false: `mem_rut_counterexample_conditions`,
+`mem_rut_counterexample_duplicates`.)  The remaining hypothesis is F4g, outside what callers pass. -/
+theorem mem_rut_full (s : List TupleRec) (f : UsersetFilter)
+    (hp : Gen.StoreRead.rutPlainMatchesWildcard = false ∨ NoPlainRef f) :
+    memReadUsersetTuples genMemShape s f = specReadUsersetTuples s f :=
+  mem_rut_eq_spec genMemShape s f (Or.inl tie_rut_repaired.1) (Or.inl tie_rut_repaired.2) hp
+
+/-- …and therefore both backends return the same list for every such call (given column consistency). -/
+theorem backends_agree_rut_full (s : List TupleRec) (f : UsersetFilter) (hs : ColsOK s) (ho : ObjFilterWF f.object)
+    (hp : Gen.StoreRead.rutPlainMatchesWildcard = false ∨ NoPlainRef f) :
+    memReadUsersetTuples genMemShape s f = sqlReadUsersetTuples s f := by
+  rw [mem_rut_full s f hp, sql_rut_eq_spec s f hs ho]
 
 /-! ## ReadStartingWithUser -/
 
@@ -306,7 +330,7 @@ theorem sql_rswu_counterexample_empty_ids (sh : SqlShape) (h : sh.rswuEmptyIdsMe
   cases a <;> cases b <;> decide
 
 theorem mem_rswu_empty_ids_is_documented :
-    memReadStartingWithUser MemShape.asWritten wStore fRswuEmptyIds = specReadStartingWithUser wStore fRswuEmptyIds := by decide
+    memReadStartingWithUser MemShape.beforeFix wStore fRswuEmptyIds = specReadStartingWithUser wStore fRswuEmptyIds := by decide
 
 /-- F4e on ReadStartingWithUser -/
 theorem sql_rswu_counterexample_norel (sh : SqlShape) (h : sh.rswuUserNoRelPinsEmpty = false) :
@@ -372,7 +396,7 @@ example : UserFilterWF "group:" := ⟨by decide, by decide, by decide⟩
 example : TargetWF ⟨"group:eng", "member"⟩ := ⟨by decide, by decide⟩
 
 /-- the partial theorem applies to a non-trivial call: one restriction, no conditions, tuples selected and rejected -/
-example : memReadUsersetTuples MemShape.asWritten wStore { object := "doc:1", relation := "viewer", restrictions := [⟨"group", .relation "member"⟩] }
+example : memReadUsersetTuples MemShape.beforeFix wStore { object := "doc:1", relation := "viewer", restrictions := [⟨"group", .relation "member"⟩] }
     = [⟨"doc", "1", "viewer", "group:eng#member", "", none⟩, ⟨"doc", "1", "viewer", "group:fga#member", "c1", some [1]⟩] := by decide
 
 end OpenFGAVerif.C13
